@@ -4,6 +4,7 @@ import obligations
 import ordimpls
 import provenance
 import guards
+import writes
 import mutations
 import accessors
 import eventloops
@@ -415,3 +416,4 @@ RULES.append(('03.M', 'collection mutations: every reviewed (function, stored co
 RULES.append(('03.E', 'event replay: the count of events drained from pending_events is advanced only on the Ok arm of the handler result - a PaymentSent / PaymentFailed / PaymentPathFailed event whose handler failed is replayed, not dropped (rules/eventloops.py)', lambda F: eventloops.rule(F, '03.E', r'ln/channelmanager\.rs$', 2)))
 RULES.append(('03.A', 'enum accessors agree across sibling variants: an accessor that returns the payload field `x` for one variant returns it for every variant whose payload carries a field of that name and type (a variant moved to the `=> None` arm) - rules/accessors.py', lambda F: accessors.for_property(F, 'C03', '03.A')))
 RULES.append(('03.G', 'guard census: no reviewed call of a workspace function and no reviewed mutation of a stored collection gained a controlling branch condition (an added `&& cond`, early return / continue, more specific match arm in front of an act); counts per call site, name free (rules/guards.py)', lambda F: guards.for_property(F, 'C03', '03.G')))
+RULES.append(('03.W', 'field assignments: every reviewed (function, Type.field) direct assignment is still made - state that a path no longer updates, or updates only conditionally (get_or_insert for an overwrite); generalises NN.R (rules/writes.py)', lambda F: writes.for_property(F, 'C03', '03.W')))
